@@ -109,6 +109,112 @@ func check(c caseT) (string, string) {
 	return "", ""
 }
 
+// ---- boundary-size collections for larger M (directed part of clause 1) ----
+// n = 2M+1 points: 2M in a unit cluster and one far outlier; the outlier and one upper-level vertex at every
+// combination of {first, middle, last} positions. M = 16 is the default (no option passed).
+
+type bigCase struct {
+	Space      string `json:"space"`
+	M          int    `json:"m"` // 0 = library default (16)
+	Heuristic  bool   `json:"heuristic"`
+	OutlierPos int    `json:"outlier_pos"`
+	UpperPos   int    `json:"upper_pos"` // -1 none
+}
+
+func bigPoint(i int) []float32 {
+	r := rng{uint64(i)*2654435761 + 12345}
+	return []float32{1 + r.float(), 1 + r.float()}
+}
+
+func checkBig(c bigCase) (string, string) {
+	m := c.M
+	if m == 0 {
+		m = 16
+	}
+	n := 2*m + 1
+	opts := []index.HnswOption{index.HnswEf(n), index.HnswEfConstruction(n)}
+	if c.M != 0 {
+		opts = append(opts, index.HnswM(c.M))
+	}
+	if c.Heuristic {
+		opts = append(opts, index.HnswSearchAlgorithm(index.HnswSearchHeuristic))
+	}
+	sp := idxlib.Space(c.Space)
+	ix := index.NewHnsw(2, sp, opts...)
+	pts := make([][]float32, n)
+	ids := make([]uuid.UUID, n)
+	for i := 0; i < n; i++ {
+		pts[i] = bigPoint(i)
+		if i == c.OutlierPos {
+			pts[i] = []float32{-40, 37}
+		}
+		ids[i] = world.ID(uint64(i+1), 7)
+		level := 0
+		if i == c.UpperPos {
+			level = 1
+		}
+		if err := ix.Insert(ids[i], pts[i], nil, level); err != nil {
+			return "insert-error", fmt.Sprint(err)
+		}
+	}
+	for _, q := range [][]float32{{-39, 36}, {1.5, 1.4}, {0.2, 2.4}, {-10, 12}} {
+		type sc struct {
+			i int
+			d float32
+		}
+		all := make([]sc, n)
+		for i := range pts {
+			all[i] = sc{i, sp.Distance(q, pts[i])}
+		}
+		sort.Slice(all, func(i, j int) bool { return all[i].d < all[j].d })
+		tie := false
+		for i := 1; i < n; i++ {
+			tie = tie || all[i].d == all[i-1].d
+		}
+		if tie {
+			continue
+		}
+		for _, k := range []int{1, 2, m, n - 1, n} {
+			res, err := ix.Search(context.Background(), q, uint(k))
+			if err != nil {
+				return "search-error", fmt.Sprint(err)
+			}
+			ok := len(res) == k
+			for j := 0; ok && j < k; j++ {
+				ok = res[j].Id == ids[all[j].i]
+			}
+			if !ok {
+				key := "not-exact:boundary-size"
+				if len(res) < k {
+					key = "missing-items:boundary-size"
+				}
+				return key, fmt.Sprintf("%+v n=%d: Search(%v,%d) returned %d items; first differs from the exact ranking (outlier id %x)", c, n, q, k, len(res), ids[c.OutlierPos][:1])
+			}
+		}
+	}
+	return "", ""
+}
+
+func bigCases() []bigCase {
+	var out []bigCase
+	for _, sp := range []string{"euclidean", "manhattan", "cosine"} {
+		for _, m := range []int{4, 0, 32} {
+			mm := m
+			if mm == 0 {
+				mm = 16
+			}
+			for _, h := range []bool{false, true} {
+				for _, op := range []int{0, mm, 2 * mm} {
+					for _, up := range []int{-1, 1, 2 * mm} {
+						out = append(out, bigCase{sp, m, h, op, up})
+					}
+				}
+			}
+		}
+	}
+	return out
+}
+
 func forEachCase(n int, c cfg, shardI, shardN int, f func(caseT) bool) {
 	idx := 0
 	var rec func(points []int, used uint)
@@ -184,6 +290,20 @@ func main() {
 		}
 		b, _ := os.ReadFile(os.Args[2])
 		json.Unmarshal(b, &f)
+		var fb struct {
+			Replay struct {
+				Big *bigCase `json:"big"`
+			} `json:"replay"`
+		}
+		json.Unmarshal(b, &fb)
+		if fb.Replay.Big != nil {
+			if k, d := checkBig(*fb.Replay.Big); k != "" {
+				fmt.Printf("VIOLATION property=C07 replay=%s\n  %s: %s\n", os.Args[2], k, d)
+				os.Exit(1)
+			}
+			fmt.Println("replay: property held")
+			return
+		}
 		vrt.InactiveMapPolicy = f.Replay.Cfg.Policy
 		if k, d := check(f.Replay); k != "" {
 			fmt.Printf("VIOLATION property=C07 replay=%s\n  %s: %s\n", os.Args[2], k, d)
@@ -234,6 +354,14 @@ func main() {
 	run := ev.Start("C07", "model_checking")
 	const n = 16
 	cases, complete := 0, true
+	big := bigCases()
+	for _, bc := range big {
+		vrt.InactiveMapPolicy = 0
+		if k, d := checkBig(bc); k != "" {
+			run.Violation(k, d, map[string]interface{}{"big": bc})
+		}
+	}
+	cases += len(big)
 	shard.Run(n, n, nil, func(i int, raw []byte) error {
 		var r result
 		if err := json.Unmarshal(raw, &r); err != nil {
@@ -272,6 +400,7 @@ func main() {
 		}
 	}
 	run.Assumptions = []string{
+		"clause 1 (directed part): n = 2M+1 for M in {4, 16 = library default, 32}: 2M clustered points + one far outlier, outlier and one level-1 vertex at {first, middle, last}; k in {1,2,M,n-1,n}",
 		"clause 1: 8-point grid in R^2, n <= 2M+1 (M=2: n<=5; quick n<=4), levels {0,1,2}^n, ef = efConstruction = n, queries with pairwise distinct distances (tied queries skipped), map-order policies {ascending, descending}",
 		"clause 2 is evaluated on a fixed finite family of random collections (default parameters) and is a SAMPLE of its quantifier, not exhaustive",
 	}
